@@ -161,6 +161,11 @@ async fn one_config(a: Args, idx: usize, proto: Proto, transport: Transport, per
             let size = [300_000usize, 120_000, 1 << 20, 65_536][k % 4];
             ups.push(FlowSpec { id: (idx as u64) << 16 | (3000 + k) as u64, kind: kinds[k % kinds.len()], c2s: size, s2c: 0, write_c: 65536, write_s: 1, pause_ms: 0, pattern: Pattern::Simultaneous, closer: Closer::AppAfterAll });
         }
+        // the same against a target that starts reading 1.5 s later: when the application has long closed, most of the upload
+        // is still on its way to the target
+        for k in 0..4usize {
+            ups.push(FlowSpec { id: (idx as u64) << 16 | (3100 + k) as u64, kind: kinds[k % kinds.len()], c2s: [400_000usize, 1 << 20][k % 2], s2c: 0, write_c: 65536, write_s: 1, pause_ms: 0, pattern: Pattern::SlowTarget(1500), closer: Closer::AppAfterAll });
+        }
         rep.mon("upload_and_close_flows", ups.len() as u64);
         results.extend(run_batch(reg.clone(), &d, target.port, ups, 8, Duration::from_secs(40)).await);
     }
